@@ -447,6 +447,10 @@ class Table:
                 keep = (lambda c: c not in arg) if comparison == "!in" else (lambda c: c in arg)
                 return [ (i,i+1) for i,c in enumerate(col[lo:hi],lo) if keep(c) ]
 
+            if arg != arg or (is_collection and any(a != a for a in arg)):
+                #nan has no place in the order of a column (it is not even equal to itself) so the range is scanned like an unindexed column
+                return [ (i,i+1) for i in self._compare(lo,hi,col,arg,comparison,"foreach") ]
+
             #Missing == None so None is how missing values are asked for but only Missing can be ordered against a column's values
             if arg is None: arg = Missing
             elif is_collection: arg = [ Missing if a is None else a for a in arg ]
